@@ -8,6 +8,7 @@
     unmarshalc <hex>   -> "ok <consumed> <cdesc>" | "err"
     reasm <hex of a 32-bit instruction word, big endian>  -> "ok <hex of encode (decode w)> <opcode number> <args…>" | "noop" (not an
                          instruction of the table) | "err" (the assembler model rejects what the disassembler model produced)
+    present <desc with the heap in any order>  -> "<hex bytes> <desc in reference-number order>" | "err"   (Marsh/Present.lean)
     asmdef <vararg> <arity> <min> <max> <slotcount> <nconsts> <ndefs> <nenvs> <hex of BE words|-> <extra,…|-> (<birth> <death> <slot>)*
                        (extra = captured-slot operands of ldu / setu in sub-funcdefs that read_instruction counts in this funcdef)
                        -> "<janet_verify code of that funcdef> <slot count janet_asm1 computes from its disassembly> <ok <slotcount>|err>"
@@ -36,6 +37,7 @@ import JanetModel.Marsh.Abstract
 import JanetModel.Asm.Operand
 import JanetModel.Asm.Instr
 import JanetModel.Asm.Def
+import JanetModel.Marsh.Present
 open Driver JanetModel.Marsh
 
 def dropFirst (s : String) (k : Nat) : String := String.ofList (s.toList.drop k)
@@ -469,6 +471,13 @@ def stepAsmDef : List String → Option String
 def step2 (u : Unit) (ws : List String) : Unit × String :=
   match ws with
   | "asmdef" :: rest => ((), (stepAsmDef rest).getD "bad-op")
+  | "present" :: d =>
+    match parseDesc d with
+    | some (x, G) =>
+      match present G x with
+      | some (bs, x', H) => ((), hexOfBytes bs ++ " " ++ showDesc x' H)
+      | none => ((), "err")
+    | none => ((), "bad-op")
   | _ => step u ws
 
 def main : IO Unit := runLoop () step2
